@@ -15,6 +15,7 @@ import (
 	"reflect"
 	"runtime"
 	"slices"
+	"strings"
 	"sync"
 	"time"
 
@@ -1140,6 +1141,14 @@ func (m *Mint) settleProofs(Ys []string, proofs cashu.Proofs) error {
 }
 
 func (m *Mint) ProofsStateCheck(Ys []string) ([]nut07.ProofState, error) {
+	// Ys are stored in lowercase hex. Look them up in that form so that the
+	// same Y written in uppercase hex is not reported as unspent.
+	requestedYs := Ys
+	Ys = make([]string, len(requestedYs))
+	for i, y := range requestedYs {
+		Ys[i] = strings.ToLower(y)
+	}
+
 	// status of proofs that are pending due to an in-flight lightning payment
 	// could have changed so need to check with the lightning backend the status
 	// of the payment
@@ -1205,6 +1214,11 @@ func (m *Mint) ProofsStateCheck(Ys []string) ([]nut07.ProofState, error) {
 		}
 
 		proofStates[i] = nut07.ProofState{Y: y, State: state, Witness: witness}
+	}
+
+	// answer with the Ys as they were requested
+	for i := range proofStates {
+		proofStates[i].Y = requestedYs[i]
 	}
 
 	return proofStates, nil
